@@ -586,7 +586,8 @@ def check(ctx):
     check_weights(ctx)
     # the lifted operators are part of the prior: an operator shortcut that is not an identity, or an operand that is not
     # lifted, changes the distribution of every scene using it (rules shared with C05, reported under this property)
-    from .c05 import check_lifting, check_shortcuts
+    from .c05 import check_containers, check_lifting, check_shortcuts
 
     check_shortcuts(ctx, R="C01.shortcut")
     check_lifting(ctx, R="C01.lift")
+    check_containers(ctx, R="C01.containers")
